@@ -15,6 +15,65 @@ FIRST_SEARCH = {'strchr', 'strstr', 'memchr', 'index', 'strpbrk', 'strcspn'}
 LAST_SEARCH = {'strrchr', 'memrchr', 'rindex'}
 
 
+def _derived_closure(F, seeds):
+    pt = PtrTaint(F, lambda x: False, set())
+    pt.derived = set(seeds)
+    changed = True
+    while changed:
+        changed = False
+        for m in F.body.walk():
+            if m.k == 'BinaryOperator' and m['op'] == '=':
+                d = decl_of(m.ch[0])
+                if d is not None and d['id'] not in pt.derived and pt.is_derived(m.ch[1]):
+                    pt.derived.add(d['id'])
+                    changed = True
+            if m.k == 'DeclStmt':
+                for d in m['decls']:
+                    if d.get('init', -1) != -1 and d['id'] not in pt.derived and pt.is_derived(F.nodes[d['init']]):
+                        pt.derived.add(d['id'])
+                        changed = True
+    return pt
+
+
+def helper_parses_pid(prog, W, call, addr_node, bufid):
+    """W hands &pid and the stat text to the program function called by `call`: there the pid may only be written by
+    sscanf() on text derived from that same buffer parameter"""
+    H = prog.func(call.get('callee'), W.tu)
+    args = call.ch[1:]
+    j = next((k for k, a in enumerate(args) if a is not None and any(x is addr_node for x in a.walk())), None)
+    ptw = _derived_closure(W, {bufid} if bufid else set())
+    bi = [k for k, a in enumerate(args) if a is not None and k != j and ptw.is_derived(a)]
+    if j is None or j >= len(H.params) or not bi:
+        return False, '%s receives the address of the pid variable but not the stat text just read' % H.name
+    pj = H.params[j]['id']
+    pth = _derived_closure(H, {H.params[k]['id'] for k in bi if k < len(H.params)})
+    writers = 0
+    for n in H.body.walk():
+        if n.k == 'DeclRefExpr' and n['ref'].get('id') == pj:
+            c = n.parent
+            while c is not None and c.k in ('ImplicitCastExpr', 'ParenExpr'):
+                c = c.parent
+            if c is not None and c.k == 'CallExpr' and c.get('callee') == 'sscanf':
+                if not pth.is_derived(arg(c, 0)):
+                    return False, 'in %s the next pid is parsed from %s, which is not the stat text it was handed' % (
+                        H.name, render(arg(c, 0)))
+                writers += 1
+                continue
+            if c is not None and c.k == 'UnaryOperator' and c.get('op') == '*':
+                up = c.parent
+                while up is not None and up.k in ('ImplicitCastExpr', 'ParenExpr'):
+                    up = up.parent
+                if up is not None and up.k in ('BinaryOperator', 'CompoundAssignOperator') and \
+                        (up.get('op') == '=' or up.k == 'CompoundAssignOperator') and any(x is c for x in up.ch[0].walk()):
+                    return False, 'in %s the pid is written by %s' % (H.name, render(up))
+                continue        # a read of the current value
+            if c is not None and c.k == 'CallExpr':
+                return False, 'in %s the address of the pid is passed on to %s' % (H.name, render(c)[:50])
+    if writers == 0:
+        return False, '%s never parses the next pid' % H.name
+    return True, ''
+
+
 def run(ctx):
     chk = ctx.chk
     chk.rule('X1', 'the walk starts at the parent (getppid, never the process itself) and every further pid is the one '
@@ -74,6 +133,13 @@ def run(ctx):
             p = n.parent
             while p is not None and p.k != 'CallExpr':
                 p = p.parent
+            if p is not None and p.get('callee') not in ('sscanf',) and prog.func(p.get('callee'), W.tu) is not None:
+                # a helper that is handed the buffer just read and the address of the pid: held to the same rule
+                okh, whyh = helper_parses_pid(prog, W, p, n, bufid)
+                if not okh:
+                    oks = False
+                    detail = whyh
+                continue
             if p is None or p.get('callee') not in ('sscanf',):
                 oks = False
                 detail = 'the pid variable is modified by %s' % (render(p) if p is not None else render(n))
@@ -216,7 +282,8 @@ def run(ctx):
            how='DROP exactly when the walker returned 1 (found); -1 (error) and 0 (not found) give PASS')
     # ---- X3 --------------------------------------------------------------------------------------
     searches = {}
-    for c in W.calls():
+    WH = common.with_helpers(prog, W)
+    for c in [c for g in WH for c in g.calls()]:
         if c.get('callee') in FIRST_SEARCH | LAST_SEARCH:
             ch = strip(arg(c, 1))
             v = ch.get('v') if ch is not None else None
@@ -236,7 +303,9 @@ def run(ctx):
     # copy bounded + terminated: the A4 obligations of the walker
     from engine.bounds import BoundsAnalysis
     ba = BoundsAnalysis(prog, cg)
-    obls = ba.analyse(W)
+    obls = []
+    for g in ba.order_callers_first([g for g in WH if g is not S]):
+        obls += ba.analyse(g)
     badw = [o for o in obls if not o.ok]
     chk.ob('X3', 'name-copy-bounded', bool(obls) and not badw, (badw[0].node if badw else W.body).where(), W.name,
            badw[0].missing if badw else '', how='%d write obligations of %s discharged' % (len(obls), W.name))
